@@ -216,3 +216,36 @@ class G:
 
     def fmt(self):
         return edges_str(self.edges)
+
+
+# ---------------------------------------------------------------------------------------------
+# clauses stated by several properties: run the owning module once per program and copy its obligations
+# ---------------------------------------------------------------------------------------------
+
+def import_rules(ctx, prop, rules, as_rule, key_prefix=None):
+    """Run the rule module of `prop` (cached per program) and record the obligations of its rules `rules`
+    (e.g. ["R5"]) in ctx under rule `as_rule`. Returns the number of obligations copied."""
+    import importlib
+    from ..engine import Ctx
+    cache = ctx.prog.__dict__.setdefault("_subctx", {})
+    sub = cache.get(prop)
+    if sub is None:
+        sub = Ctx(prop, ctx.prog, ctx.tier)
+        if prop == ctx.prop:
+            raise RuntimeError("import_rules: a property cannot import itself")
+        cache[prop] = sub          # set before running: breaks import cycles (a cycle sees the partial context)
+        mod = importlib.import_module("sa.rules.%s" % prop.lower())
+        mod.run(sub)
+    want = {"%s.%s" % (prop, r) for r in rules}
+    n = 0
+    for o in sub.obs:
+        if o.rule in want:
+            k = "%s:%s" % (key_prefix or o.rule, o.key)
+            ctx.ob(as_rule, k, o.ok, o.msg, where=o.where, how=o.how, nontrivial=o.nontrivial)
+            ctx.obs[-1].fn = o.fn
+            if o.fn:
+                ctx.analysed_fns.add(o.fn)
+            n += 1
+    if n == 0:
+        ctx.ob(as_rule, "imported:%s" % ",".join(sorted(want)), False, "no obligations produced by %s (fail closed)" % sorted(want))
+    return n
